@@ -9,6 +9,7 @@ import (
 	"sort"
 	"strings"
 	"sync"
+	"sync/atomic"
 	"time"
 
 	"github.com/ohler55/slip"
@@ -335,11 +336,26 @@ func execFunc(spec string) (res engine.Result) {
 	defer leave()
 	w := &world{scope: slip.NewScope()}
 	defer w.done()
+	// variable names are fresh per case: defconstant/defvar/defun given the VARIABLE as a name must not leak
 	var vars []string
-	for i, a := range args {
-		v := fmt.Sprintf("c09a%d", i)
-		w.scope.Let(slip.Symbol(v), w.build(a))
-		vars = append(vars, v)
+	if !setup(func() {
+		id := atomic.AddInt64(&nameCounter, 1)
+		for i, a := range args {
+			v := fmt.Sprintf("c09v%dx%d", id, i)
+			w.scope.Let(slip.Symbol(v), w.build(a))
+			vars = append(vars, v)
+		}
+	}) {
+		// the world of this process is broken (an earlier case): judge this case in a fresh process, then restart
+		tainted = true
+		res.Hit("setup-failed")
+		if os.Getenv("C09_CHILD") == "" {
+			r := runChild(spec, sigPrefix)
+			r.Hit("setup-failed")
+			return r
+		}
+		res.Fail("harness:setup-failed", spec)
+		return
 	}
 	var src string
 	if mode == "l" {
@@ -352,7 +368,7 @@ func execFunc(spec string) (res engine.Result) {
 		code := slip.ReadString(src, w.scope)
 		return code.Eval(w.scope, nil)
 	})
-	what := fmt.Sprintf("%s with %s", src, describeArgs(args))
+	what := fmt.Sprintf("%s with %s", digest(src, 300), describeArgs(args))
 	o.anyClass = throwsAnything[fn]
 	judgeCall(&res, o, &realClassifier, sigPrefix, what)
 	// Did the call poison the interpreter? A plain type error must still be a plain type error.
@@ -387,9 +403,21 @@ func describeArgs(args []string) string {
 	}
 	var b []string
 	for i, a := range args {
-		b = append(b, fmt.Sprintf("c09a%d=%s", i, a))
+		b = append(b, fmt.Sprintf("x%d=%s", i, a))
 	}
 	return strings.Join(b, " ")
+}
+
+// setup runs harness-side preparation; false when it panicked.
+func setup(fn func()) (ok bool) {
+	defer func() {
+		if rec := recover(); rec != nil {
+			ok = false
+			logLine(fmt.Sprintf("SETUP-FAILED\t%v", rec))
+		}
+	}()
+	fn()
+	return true
 }
 
 // judgeCall applies the oracle to one observation and fills the result.
